@@ -26,8 +26,9 @@ MANIFEST = {
             "forbidden_never_served_from_cache and auth_always_reaches_origin for the two-request scenario model (any field bytes, status, dates, method); "
             "wellformed_lines_no_store_recognised / _private_recognised + directive_spelling_recognised: in quote-balanced comma lists over any number of "
             "field lines the directive is always seen (any case, spacing, duplicates, arguments), giving wellformed_*_never_served_partial; "
-            "counterexamples quote_leak_hides_no_store_counterexample (quote left open in an earlier field line) and not_modified_no_store_counterexample "
-            "(304 carrying no-store), with not_modified_forbidden_not_reused_partial for the repaired 304 branch. The model is tied to the rebuilt binary by "
+            "headline theorems for the tree as it is: response_sent_with_no_store_or_private_never_served / request_sent_with_no_store_never_served (one "
+            "well-formed field line with the directive is enough, whatever the other lines) and not_modified_with_no_store_not_reused; the pre-fix "
+            "behaviours survive only as counterexamples conditional on the old code forms (generated flags). The model is tied to the rebuilt binary by "
             "scenario correspondence (logged decision + reason, hit/revalidation/miss at the origin, which response the client got) and a direct oracle with "
             "its own strict RFC 9110 list parser",
     "note": "trusted: Lean kernel, python rig (origin/client stubs), loopback TCP, squid's debug line; not modelled: socket I/O, message parser, "
@@ -436,55 +437,16 @@ def oracle(l, impl):
     return None
 
 
-def joined_names(lines):
-    """directive names seen when the field lines are joined with ", " first and quotes may span the former line ends (RFC quoting)"""
-    v = b", ".join(lines)
-    names, cur, quoted, i = set(), bytearray(), False, 0
-    while i < len(v):
-        c = v[i]
-        if quoted and c == 92 and i + 1 < len(v):
-            cur += v[i:i + 2]
-            i += 2
-            continue
-        if c == 34:
-            quoted = not quoted
-        if c == 44 and not quoted:
-            names.add(bytes(cur).strip(b" \t").split(b"=")[0].lower())
-            cur = bytearray()
-        else:
-            cur.append(c)
-        i += 1
-    names.add(bytes(cur).strip(b" \t").split(b"=")[0].lower())
-    return names
-
-
-def quote_leak(lines, name):
-    """`name` is a directive of a well-formed field line, but joining the lines hides it inside a quoted-string opened in an earlier line"""
-    per_line = any(n == name for v in lines for n, _ in (strict_list(v.strip(b" \t")) or []))
-    return per_line and name not in joined_names(lines)
-
-
 def classify(l, impl, why):
     p = parts(l)
     o = obs(impl)
     if o is None:
         return None
     pr = premises(p)
-    if p["nmcc"] is not None and not pr and o[1] == "reval" and o[3] == "hit" and premises304(p):
-        return "C11-304-no-store-ignored"
     if pr == ["auth"] and o[1] == "reval" and o[2] == "1":
         names = lenient_names(p["respcc"])
         if b"no-cache" in names:
             return "C11-auth-no-cache-stored"
-    leak = []
-    if "resp-no-store" in pr:
-        leak.append(quote_leak(p["respcc"], b"no-store"))
-    if "resp-private" in pr:
-        leak.append(quote_leak(p["respcc"], b"private"))
-    if "req-no-store" in pr:
-        leak.append(quote_leak(p["reqcc"], b"no-store"))
-    if leak and all(leak) and "auth" not in pr:     # every premise of the failing case is hidden by the join
-        return "C11-quote-leak-across-lines"
     return None
 
 
